@@ -15,12 +15,19 @@ Lemma desanitize_sites_tie : map (fun x => fst (fst x)) desanitize_loops = model
 Proof. reflexivity. Qed.
 
 (* at every site: guard `isinstance(attr, sanitized_types)` with action `str(attr)`, resp. guard
-   `_should_desanitize(attr)` with action `literal_eval(attr)` — what sanitize_attr/desanitize_attr do *)
+   `_should_desanitize(attr)` with action `literal_eval(attr)` under try/except — what sanitize_attr/desanitize_attr do *)
 Lemma sanitize_guard_action_tie :
   forallb (fun x => match x with (_, GuardIsSanitizedType, ActStr) => true | _ => false end) sanitize_loops = true.
 Proof. reflexivity. Qed.
 Lemma desanitize_guard_action_tie :
-  forallb (fun x => match x with (_, GuardShouldDesanitize, ActLiteralEval) => true | _ => false end) desanitize_loops = true.
+  forallb (fun x => match x with (_, GuardShouldDesanitize, ActLiteralOrStr) => true | _ => false end) desanitize_loops = true.
+Proof. reflexivity. Qed.
+
+(* the wrapper around literal_eval catches exactly the two kinds [oracle_errors] speaks of, and the guard
+   skips the empty string: what Model/Serial.literal_action and the should_* lemmas rely on *)
+Lemma desanitize_caught_tie : desanitize_caught = [EValueError; ESyntaxError].
+Proof. reflexivity. Qed.
+Lemma should_guard_nonempty_tie : should_guard_nonempty = true.
 Proof. reflexivity. Qed.
 
 Lemma sanitized_types_tie : sanitized_types = [TDict; TList; TBool; TNone].
